@@ -89,6 +89,12 @@ def jobs(tier):
         combos = [(f, b, s, 2, 2) for f in ("oid", "path", "mixed") for b in (1, 3) for s in (0, 1)] + \
                  [(f, b, s, 2, 1) for f in ("oid-ci", "oid-filt") for b in (0, 1, 3) for s in (0, 1)] + \
                  [("oid", 3, s, 3, 1) for s in (0, 1)] + [("path", 3, 0, 3, 1)]
+    if q:
+        # deeper schedules (2 slots per operation) after an overwrite: the engine's own upload echo is still pending when the next user operation arrives
+        for f in ("oid", "path"):
+            for s_ in (0, 1):
+                out.append({"harness": "mirror", "params": {"flavour": f, "base": 1, "side": s_, "nops": 2, "slots": 2, "first": "write_a"},
+                            "label": "%s/base1/side%d/2ops/2slots/first=write_a" % (f, s_)})
     for f, b, s, n, sl in combos:
         for op in OPS:
             out.append({"harness": "mirror", "params": {"flavour": f, "base": b, "side": s, "nops": n, "slots": sl, "first": op},
